@@ -14,8 +14,9 @@ META = dict(
     design="6/C04")
 
 RULE = ("random adaptor trees (bases of depth <= 2 borrowed through by_ref by op trees of depth <= 3, plus owned trees of depth <= 5) over "
-        "[i16;2], [u8;3], i32, f64, [f32;2], source lengths <= 40, by_ref hand-backs after random numbers of next; "
-        "non-trivial = some op tree (bases expanded) of depth >= 2 containing a delay with k > 0 or a binary node whose sources have different lengths")
+        "[i16;2], [u8;3], i32, f64, [f32;2], source lengths <= 40, by_ref hand-backs after random numbers of next; owned stacks also cloned "
+        "after j calls (clone and original must continue identically) and driven through clone / nth / skip of the returned iterators; "
+        "non-trivial = some op tree (bases expanded) of depth >= 2 containing a delay with k > 0 or a binary node whose sources have different lengths, or an interleaved-sample iterator cloned mid-frame")
 
 
 def gen_case(r, tier):
@@ -46,6 +47,8 @@ def gen_case(r, tier):
                 d = min(d, 3)
             t = g.tree(d, leafgen)
             kind = r.choice(["N", "N", "N", "N", "N", "U", "T", "I"])
+            if owned and r.chance(1, 2):  # an owned stack (no borrow inside) can be cloned
+                kind = r.choice(["NC", "NC", "IT"])
             kmax = 8 if flt else 14
             if kind == "N":
                 ops.append(["N", r.range(1, kmax), t])
@@ -53,6 +56,11 @@ def gen_case(r, tier):
                 ops.append(["U", r.range(1, kmax), r.below(3), t])
             elif kind == "T":
                 ops.append(["T", r.range(0, kmax), kmax + 2, r.below(3), t])
+            elif kind == "NC":
+                ops.append(["NC", r.range(0, kmax), r.range(1, kmax // 2), t])
+            elif kind == "IT":
+                ik = r.choice([0, 1, 2, 3])
+                ops.append(["IT", ik, r.range(0, kmax), r.range(0, kmax), r.choice([1, 2, 3]), r.range(0, 4), kmax // 2, r.below(2), t])
             else:
                 ops.append(["I", r.range(1, 2 * kmax), r.below(3), t])
         it = dict(fmt=fm, bases=bases, ops=ops, wide=wide)
